@@ -20,6 +20,30 @@ func Content(r *Rand, class string, w, h, c, p, aux int) []int {
 		for i := range s {
 			s[i] = int(r.U64() & uint64(max))
 		}
+	case "varnoise":
+		// noise whose amplitude changes from one 8x8 cell to the next (0..P random bits around
+		// mid-grey): code-block / segment byte counts spread over a wide range instead of
+		// clustering around one value as they do for uniform noise
+		cw, ch := (w+7)/8, (h+7)/8
+		bitsOf := make([]uint, cw*ch*c)
+		for i := range bitsOf {
+			bitsOf[i] = uint(r.Intn(p + 1))
+		}
+		for y := 0; y < h; y++ {
+			for x := 0; x < w; x++ {
+				for k := 0; k < c; k++ {
+					b := bitsOf[((y/8)*cw+x/8)*c+k]
+					v := max/2 + int(r.U64()&((uint64(1)<<b)-1)) - (1<<b)/2
+					if v < 0 {
+						v = 0
+					}
+					if v > max {
+						v = max
+					}
+					*at(x, y, k) = v
+				}
+			}
+		}
 	case "const":
 		v := Pick(r, 0, max, max/2, max/2+1, r.Intn(max+1))
 		for i := range s {
